@@ -110,17 +110,17 @@ STAGES.update({
     'C10': {
         'quick': [
             ('shapes', 'MimeBuild', cfg(MAXP='2', MAXE='1', MAXA='2', ENCS='{"qp", "b64", "8bit"}', PENCS='{"", "b64"}', ROUNDTRIP='{TRUE}',
-                                        CCS='<<"crlf", "utf8", "lf", "dots", "eq", "size300", "len76", "bin">>', ROTS='{0, 3}')),
+                                        CCS='<<"crlf", "utf8", "lf", "dots", "eq", "size300", "len76", "bin", "empty">>', ROTS='{0, 3}')),
             ('headers-and-names', 'MimeBuild', cfg(MAXP='1', MAXE='1', MAXA='1', ENCS='{"qp"}', ROUNDTRIP='{TRUE}', CCS='<<"crlf", "utf8">>',
                                                    HDRS=hdrsets(["subject", "fromname", "toname", "cc"], ["plain", "utf8", "long", "quotes"]),
-                                                   FNAMES='{"", "utf8", "semi", "blanks", "dotted"}')),
+                                                   FNAMES='{"", "utf8", "semi", "blanks", "dotted", "longutf8"}')),
         ],
         'thorough': [
             ('shapes', 'MimeBuild', cfg(MAXP='3', MAXE='2', MAXA='2', ENCS='{"qp", "b64", "8bit"}', PENCS='{"", "b64", "qp", "8bit"}', FENCS='{"", "8bit"}',
-                                        ROUNDTRIP='{TRUE}', CCS='<<"crlf", "utf8", "lf", "dots", "eq", "size300", "len76", "bin", "trailws", "from">>', ROTS='0..9')),
+                                        ROUNDTRIP='{TRUE}', CCS='<<"crlf", "utf8", "lf", "dots", "eq", "size300", "len76", "bin", "trailws", "from", "empty">>', ROTS='0..10')),
             ('headers-and-names', 'MimeBuild', cfg(MAXP='2', MAXE='1', MAXA='2', ENCS='{"qp", "b64"}', ROUNDTRIP='{TRUE}', CCS='<<"crlf", "utf8">>',
                                                    HDRS=hdrsets(["subject", "fromname", "toname", "cc"], ["plain", "utf8", "long", "quotes", "blanks", "token300"]),
-                                                   FNAMES='{"", "utf8", "semi", "blanks", "dotted", "long"}')),
+                                                   FNAMES='{"", "utf8", "semi", "blanks", "dotted", "long", "longutf8"}')),
         ],
     },
     'C02': {
@@ -153,7 +153,7 @@ def scfg(**kw):
     return c
 
 
-KEYS4 = '{[key |-> k, inter |-> i] : k \\in {"rsa", "ecdsa", "rsa384", "ecdsa384"}, i \\in BOOLEAN}'
+KEYS4 = '{[key |-> k, inter |-> i] : k \\in {"rsa", "ecdsa", "rsa384", "ecdsa384", "ecdsaserial"}, i \\in BOOLEAN}'
 KEYS2 = '{[key |-> "rsa", inter |-> TRUE], [key |-> "ecdsa", inter |-> FALSE]}'
 KEYS2B = '{[key |-> "rsa", inter |-> FALSE], [key |-> "ecdsa", inter |-> TRUE]}'
 SINVS = ['Verifies', 'CounterClean', 'OneSignature', 'TypeOK', 'SEmit']
@@ -167,7 +167,7 @@ STAGES['C08'] = {
         ('encodings', 'Smime', scfg(MAXP='2', MAXE='1', MAXA='1', ENCS='{"qp"}', PENCS='{"", "b64", "8bit"}', FENCS='{"", "8bit", "qp"}',
                                      SMIMES=KEYS2, CCS='<<"crlf", "utf8", "dots", "eq">>')),
         ('headers', 'Smime', scfg(MAXP='2', MAXE='0', MAXA='1', ENCS='{"qp"}', SMIMES=KEYS2B,
-                                   HDRS=hdrsets(SHDR, ["plain", "long", "multiline"]))),
+                                   HDRS=hdrsets(SHDR, ["plain", "long", "multiline", "lffold"]))),
         ('descriptions-names', 'Smime', scfg(MAXP='2', MAXE='1', MAXA='1', ENCS='{"qp", "b64"}', SMIMES=KEYS2,
                                               PDESCS='{"", "plain", "long", "utf8"}', FDESCS='{"", "long", "utf8"}', FNAMES='{"", "long", "utf8"}')),
         ('histories', 'Smime', scfg(MAXP='2', MAXE='1', MAXA='1', ENCS='{"qp"}', SMIMES=KEYS2B,
@@ -178,7 +178,7 @@ STAGES['C08'] = {
         ('encodings', 'Smime', scfg(MAXP='2', MAXE='2', MAXA='2', PENCS='{"", "qp", "b64", "8bit"}', FENCS='{"", "b64", "8bit", "qp"}',
                                      SMIMES=KEYS2, CCS='<<"crlf", "utf8", "dots", "eq">>')),
         ('headers-pairs', 'Smime', scfg(MAXP='2', MAXE='1', MAXA='1', ENCS='{"qp", "b64"}', SMIMES=KEYS2B,
-                                         HDRS='{<<[setter |-> s1, val |-> v1], [setter |-> s2, val |-> v2]>> : s1, s2 \\in {%s}, v1, v2 \\in {"plain", "long", "multiline"}}' % ', '.join('"%s"' % x for x in SHDR))),
+                                         HDRS='{<<[setter |-> s1, val |-> v1], [setter |-> s2, val |-> v2]>> : s1, s2 \\in {%s}, v1, v2 \\in {"plain", "long", "multiline", "lffold"}}' % ', '.join('"%s"' % x for x in SHDR))),
         ('descriptions-names', 'Smime', scfg(MAXP='2', MAXE='1', MAXA='1', ENCS='{"qp", "b64", "8bit"}', SMIMES=KEYS4,
                                               PDESCS='{"", "plain", "long", "utf8", "blanks"}', FDESCS='{"", "long", "utf8", "blanks"}', FNAMES='{"", "long", "utf8", "blanks", "dotted"}')),
         ('histories', 'Smime', scfg(MAXP='2', MAXE='1', MAXA='1', ENCS='{"qp", "b64"}', SMIMES=KEYS2B,
